@@ -146,6 +146,8 @@ def generate(**kwargs: Any) -> None:
 
     transformer = ResourceTransformer(config=config)
     uris = sorted(resolve_source(source, recursive=recursive, extensions=extensions))
+    # The project file may live in the source directory, it's not a sample document
+    uris = [uri for uri in uris if uri != config_file.as_uri()]
     transformer.process(uris, cache=cache)
 
     handler.emit_warnings()
